@@ -615,6 +615,26 @@ Inv_IntegrateTable ==
              [] key = "xx'" -> MEq(E(key, r, cA, cB, cC, cD), MAdd(Truth(o, r).Sig, Outer(Truth(o, r).mu, Truth(o, r).mu)))
              [] OTHER -> TRUE
 
+\* C02: every object of a density class evaluates to the normal density of its own mean and covariance
+Inv_PdfIsNormal ==
+    \A i \in 1..Len(heap) :
+        LET o == heap[i] IN
+        IsPdf(o) => \A r \in 1..NumR(o) : \A x \in Lattice2(NumD(o)) :
+                        LNEq(EvalLn(o, r, x), NormalLn(x, Truth(o, r).mu, Truth(o, r).Sig))
+
+\* C15: the specialised code paths (diagonal inversion, rank-one update, covariance reuse) change cost only:
+\* the step just taken gives the same function when its operands are replaced by their general-class twins
+Generalize(o) ==
+    IF IsCond(o) THEN [o EXCEPT !.cls = "Cond"]
+    ELSE [MkObj(IF IsMeasure(o) THEN "Measure" ELSE "Factor", o.Lam, o.nu, o.lnb) EXCEPT !.cS = FALSE]
+Inv_Generalize ==
+    /\ IsAct("Multiply") => SemEq(heap[Last.id], Multiply(Generalize(heap[Last.a.i]), Generalize(heap[Last.a.j]), Last.a.full))
+    /\ IsAct("Hadamard") => SemEq(heap[Last.id], Hadamard(Generalize(heap[Last.a.i]), Generalize(heap[Last.a.j]), Last.a.full))
+    /\ IsAct("Product") => SemEq(heap[Last.id], Product(Generalize(heap[Last.a.i])))
+    /\ IsAct("GetDensity") => SemEq(heap[Last.id], GetDensity(Generalize(heap[Last.a.i])))
+    /\ (IsAct("Multiply") \/ IsAct("Hadamard") \/ IsAct("Product") \/ IsAct("GetDensity")) =>
+          CacheCoherent(heap[Last.id])
+
 \* the exporter: print the behaviour once it is complete (Done is defined by the MC module)
 Export(done) == done => PrintT(ToJson(hist))
 =============================================================================
